@@ -18,3 +18,10 @@ def run(ctx, rep):
     more.rule_kernel_columns(mod, rep)
     more.rule_release_after(mod, rep)
     more.rule_pivot_found(mod, rep)
+    import re
+    from ..rules import more2
+    more2.rule_arg_names(mod, rep, lambda f: re.match(r"p[sdcz]gstrf|pxgstrf", f.name) is not None, floor=1)
+    from ..rules import more3
+    more3.rule_kernel_base(mod, rep)
+    more3.rule_prune_guard(mod, rep)
+    more3.rule_threshold_forward(mod, rep)
